@@ -11,15 +11,19 @@ for p in "${P[@]}"; do
   sel=""
   for f in $files; do
     case $f in
-      emulator/*|xbuf/*) sel="$sel C01 C02 C03 C07 C08 C11 C12 C13 C14 C18";;
-    esac
-    case $f in
-      asm/*|xbuf/*) sel="$sel C03 C06 C07 C15 C16 C19 C18";;
-      mapping/*) sel="$sel C04 C05 C11 C18";;
-      rom.go|header.go) sel="$sel C09 C10 C18";;
-      color15/*) sel="$sel C17 C18";;
+      emulator/cpu65c816/*|emulator/cpualt/cpu*) sel="$sel C01 C02 C07 C08 C12 C14";;
+      emulator/cpualt/bus.go) sel="$sel C01 C02 C08 C12 C13 C14";;
+      emulator/bus/*) sel="$sel C01 C02 C08 C11 C12 C13 C14";;
+      emulator/memory/*) sel="$sel C11 C12 C13";;
+      emulator/system.go) sel="$sel C11 C12 C14";;
+      xbuf/*) sel="$sel C14 C15 C16";;
+      asm/*) sel="$sel C03 C06 C07 C15 C16 C19";;
+      mapping/*) sel="$sel C04 C05 C11";;
+      rom.go|header.go) sel="$sel C09 C10";;
+      color15/*) sel="$sel C17";;
     esac
   done
+  sel="$sel $own"   # (C18 runs only for its own changes: it takes a race build per change)
   sel=$(echo $sel | tr ' ' '\n' | sort -u | tr '\n' ' ')
   # CROSS_ONLY="C06 C15 ..." restricts the checks that are run
   if [ -n "$ONLY" ]; then sel=$(for c in $sel; do case " $ONLY " in *" $c "*) echo -n "$c ";; esac; done); fi
